@@ -242,6 +242,12 @@ def sortKeyOf (v : View) (sf : SortField) : SortKey :=
       match v.get c with
       | .cv ns vs => .cv (cvLookup sf.args ns vs)
       | _ => .cv ""
+    | .strList =>
+      -- `strings.Join(GetStringList(col), "\x00")`: a list the object does not have (optional column its backend lacks,
+      -- reference that does not exist) is the empty list
+      match v.get c with
+      | .emptyList _ => .str ""
+      | x => .str x.asString
     | _ => .str (v.get c).asString
 
 /-- three-way comparison of one key in *ascending* sense; for custom variables "" sorts last -/
